@@ -157,6 +157,11 @@ pub fn build(doc: &Value) -> Result<MetadataWrapper, String> {
                     "return-value" => {
                         bp = bp.set_return_value(v.as_i64().ok_or("return-value")? as i32)
                     }
+                    // "\u{1}other:<name>" asks for `set_other_field(<name>, ..)` whatever <name> is - also one
+                    // of the three named members (a JSON object cannot say that twice)
+                    _ if k.starts_with("\u{1}other:") => {
+                        bp = bp.set_other_field(k["\u{1}other:".len()..].to_string(), s(v)?)
+                    }
                     _ => bp = bp.set_other_field(k.clone(), s(v)?),
                 }
             }
